@@ -234,26 +234,20 @@ func (q *queueLimitMPSC) Pop()""",
 func (q *queueLimitMPSC) Pop()""", 1),
 # ---------------- C04
 ("C04", "m-monitorpid-adds-link", "node/core.go",
- """		return n.targetManager.AddMonitor(pid, target)
-	}
-
-	// remote target
-	connection, err := n.network.GetConnection(target.Node)
-	if err != nil {
-		return err
-	}
-
-	if err := connection.MonitorPID(pid, target); err != nil {""",
- """		return n.targetManager.AddLink(pid, target)
-	}
-
-	// remote target
-	connection, err := n.network.GetConnection(target.Node)
-	if err != nil {
-		return err
-	}
-
-	if err := connection.MonitorPID(pid, target); err != nil {""", 1),
+ """		if err := n.targetManager.AddMonitor(pid, target); err != nil {
+			return err
+		}
+		// the target could have been removed in between (its termination
+		// might not have seen this relation). check it once again
+		if _, exist := n.processes.Load(target); exist == false {
+			if err := n.targetManager.RemoveMonitor(pid, target); err == nil {""",
+ """		if err := n.targetManager.AddLink(pid, target); err != nil {
+			return err
+		}
+		// the target could have been removed in between (its termination
+		// might not have seen this relation). check it once again
+		if _, exist := n.processes.Load(target); exist == false {
+			if err := n.targetManager.RemoveMonitor(pid, target); err == nil {""", 1),
 ("C04", "m-terminate-name-cleanup-wrong-key", "node/core.go",
  """	linkConsumers, monitorConsumers := n.targetManager.CleanupTarget(target)
 
@@ -784,6 +778,15 @@ func (p *process) RemoteSpawnRegister(""", 1),
 		if err := n.targetManager.AddMonitor(pid, target); err != nil {
 			return nil, err
 		}
+		// the target could have been removed in between (its termination
+		// might not have seen this relation). check it once again
+		if _, exist := n.events.Load(target); exist == false {
+			if err := n.targetManager.RemoveMonitor(pid, target); err == nil {
+				return nil, gen.ErrEventUnknown
+			}
+			// has been handled by the termination. the down message is on its way
+			return nil, nil
+		}
 
 		if event.last != nil {
 			// load last N events
@@ -814,6 +817,15 @@ func (p *process) RemoteSpawnRegister(""", 1),
 		}
 		if err := n.targetManager.AddMonitor(pid, target); err != nil {
 			return nil, err
+		}
+		// the target could have been removed in between (its termination
+		// might not have seen this relation). check it once again
+		if _, exist := n.events.Load(target); exist == false {
+			if err := n.targetManager.RemoveMonitor(pid, target); err == nil {
+				return nil, gen.ErrEventUnknown
+			}
+			// has been handled by the termination. the down message is on its way
+			return nil, nil
 		}
 """, 1),
 # ---------------- C19
